@@ -86,6 +86,8 @@ def examine_case(ctx, case, rng):
     tol = max(1e-9, cond * 2e-14) * 16
     # (a) scaling
     a = complex(rng.choice([2, -1, 0.5, 3]), rng.choice([0, 1, -2, 0.5]))
+    if rng.random() < 0.25:
+        a = complex(rng.choice([1e-13, 2.5e-14, 1e9, -3e-16]), 0)        # the law holds for every factor, tiny and huge ones included
     sc = scale_case(case, a)
     r = netrun.impl_solve(sc)
     if 'exc' in r:
